@@ -5,6 +5,8 @@
   * a hit is justified by a `Chain` from the node to the result, the consumed path is the chain
     instantiated with the captured values, every value satisfies its segment's constraint and the
     node found has handlers (unconditional, given `Seg.match_sound`);
+  * (D30 repair) the undo of an abandoned child is `restoreParam`; see `RestoreMatch.lean` for the exact law that
+    needs no hypothesis on names;
   * under the tree hypotheses `NamesOk` (names) and `IdxLit` (the index fast path only selects
     literal children) the parameters after a hit are EXACTLY `ps ++ captures chain`, and a miss
     returns the parameters unchanged (the D1 repair).
@@ -60,6 +62,20 @@ theorem get?_append_fresh {m m' : AMap V} {k : Bytes} (h : k ∉ m.keys) : (m ++
     exact ih h.2
 end AMap
 
+namespace P19
+/-- Looking up a key that is not among the keys finds nothing. -/
+theorem get?_eq_none_of_fresh {V : Type} {m : AMap V} {k : Bytes} (h : k ∉ m.keys) : m.get? k = none := by
+  have := AMap.get?_append_fresh (m := m) (m' := []) h
+  simpa [AMap.get?] using this
+
+/-- **Bridge between the D30 repair and the former deletion**: when the name was not a key before the child's
+segment matched, restoring it is deleting it. -/
+theorem restoreParam_fresh {before : Params} (after : Params) {name : Bytes} (h : name ∉ before.keys) :
+    restoreParam before after name = after.erase name := by
+  unfold restoreParam
+  rw [get?_eq_none_of_fresh h]
+end P19
+
 /-! ## Tree predicates -/
 
 /-- The segment puts its capture into the parameters (non-literal, no `-` flag). -/
@@ -76,9 +92,12 @@ mutual
 (literal, ignored `-` or capturing) differs from every key that is live when the node is tried:
 the keys in `used` and the names of the capturing segments above it on the chain.
 
-This is exactly what the matcher needs: `matchFrom` runs `ctx.Delete(child.segment.Name)` for every
-abandoned child whatever its kind, so a child's name must not be a live key (for literal children
-the name is `""`; the condition then says that `""` is not a live key).  It is implied by the usual
+This is what makes `ps ++ captures chain` the exact answer of the matcher.  Before the D30 repair it was also what
+the undo needed: `matchFrom` ran `ctx.Delete(child.segment.Name)` for every abandoned child whatever its kind, so a
+child's name had to be no live key (for literal children the name is `""`; the condition then says that `""` is not a
+live key).  The repaired undo (`restoreParam`) puts the previous value back; under `NamesOk` there is none and it is
+the deletion (`P19.restoreParam_fresh`), which is how the proofs below were ported.  The law WITHOUT `NamesOk` is in
+`RestoreMatch.lean` (`P19.matchChildren_restore`, `P19.matchChildren_miss_restore`).  It is implied by the usual
 well-formedness (`NamesStrict` below: non-literal names pairwise distinct along a chain, literal
 names `""`, capturing names non-empty): see `NamesOkL_of_strict`. -/
 def Node.NamesOk (used : List Bytes) : Node → Prop
@@ -260,13 +279,14 @@ theorem hit_of_child {env : Env} {ic : Interceptors} {cs : List Node} {c : Node}
     obtain ⟨r1, r2, _⟩ := record_spec (s := c.seg) cap hfresh ht.2.2
     rw [h5 _ ⟨hok, AllL_mem ht.2.1 hc, r2⟩, r1, List.append_assoc, ← captures_cons]
 
-/-- After child `c` (tracked) missed, the parameters with `c`'s name deleted are the original ones. -/
+/-- After child `c` (tracked) missed, the parameters with `c`'s name restored (D30 repair; here: deleted, the name
+being fresh) are the original ones. -/
 theorem miss_of_child {cs : List Node} {c : Node} (hc : c ∈ cs) {cap : Bytes} {ps ps2 : Params}
     (h : ∀ used, TrackN used c (c.seg.record cap ps) → ps2 = c.seg.record cap ps)
-    {used : List Bytes} (ht : TrackL used cs ps) : ps2.erase c.seg.name = ps := by
+    {used : List Bytes} (ht : TrackL used cs ps) : restoreParam ps ps2 c.seg.name = ps := by
   obtain ⟨hfresh, hok⟩ := NamesOkL_mem ht.1 hc
   obtain ⟨_, r2, r3⟩ := record_spec (s := c.seg) cap hfresh ht.2.2
-  rw [h _ ⟨hok, AllL_mem ht.2.1 hc, r2⟩, r3]
+  rw [P19.restoreParam_fresh _ (fun hmem => hfresh (ht.2.2 _ hmem)), h _ ⟨hok, AllL_mem ht.2.1 hc, r2⟩, r3]
 
 /-! ## The main mutual theorem -/
 
